@@ -1,6 +1,15 @@
 (* C17 — property theorems only.  Each is closed by [exact <lemma>] and followed by
-   Print Assumptions; the statements are pinned here so they cannot be quietly weakened. *)
-From FB Require Import C17.Model C17.AttrTable C17.Theory.
+   Print Assumptions; the statements are pinned here so they cannot be quietly weakened.
+
+   Vocabulary (coq/C17): [read_class g T v s] is the model of duke's class_reader::read on the
+   byte stream [s] — T the attribute dispatch tables, v what the visitor side answers (interest
+   masks per level, accept/decline per class, field, method, record component, code), g the
+   grammar oracle for attribute bodies; [tables] are the tables generated from class_reader.rs;
+   [enc c] the bytes of the class structure [c]; [wf g T c h]: the header parses to [h], every
+   declared attribute_length is the length of the body that follows (and the grammar of a parsed
+   body consumes exactly that), flag attributes are empty, names resolve in the pool, no
+   insert_if_empty slot is filled twice, at most one Record attribute. *)
+From FB Require Import C17.Model C17.AttrTable C17.Theory C17.Theory2 C17.Theory3 C17.Theory4 C17.Theory5.
 
 (* The attribute dispatch tables that the translator reads off duke/src/class_reader.rs at every
    check: every arm that parses an attribute is preceded by a skip arm guarded by the interest flag
@@ -12,3 +21,48 @@ From FB Require Import C17.Model C17.AttrTable C17.Theory.
 Theorem C17_generated_tables_ok : tables_ok tables = true.
 Proof. exact generated_tables_ok. Qed.
 Print Assumptions C17_generated_tables_ok.
+
+(* Under any interest mask an attribute is either skipped or handled exactly as under the full
+   mask, and which of the two is decided by the one flag that governs the attribute. *)
+Theorem C17_dispatch_law : forall ct except m name,
+  ctx_ok ct except = true ->
+  dispatch (t_arms ct) (t_interests ct) name <> None
+  /\ dispatch (t_arms ct) m name
+     = (if keep (t_arms ct) m name then dispatch (t_arms ct) (t_interests ct) name else Some ASkip).
+Proof. exact dispatch_ctx. Qed.
+Print Assumptions C17_dispatch_law.
+
+(* Th 1 (position): for every table set that passes the finite check, every grammar, every
+   well-formed class, every visitor (masks and accept/decline choices) and every continuation of
+   the stream, the read succeeds, delivers what the specification [spec_class] computes
+   from the class structure (so it does not depend on the continuation), and leaves exactly the
+   continuation. *)
+Theorem C17_position_independent : forall T g c h,
+  tables_ok T = true -> wf g T c h ->
+  forall v rest, read_class g T v (enc c ++ rest) = Ok (spec_class T v h c, rest).
+Proof. exact position_independent. Qed.
+Print Assumptions C17_position_independent.
+
+Theorem C17_final_position : forall T g c h,
+  tables_ok T = true -> wf g T c h ->
+  forall v rest t r, read_class g T v (enc c ++ rest) = Ok (t, r) ->
+    (length (enc c ++ rest) - length r = length (enc c))%nat.
+Proof. exact final_position. Qed.
+Print Assumptions C17_final_position.
+
+(* Th 2 (concatenation): successive reads on enc c1 ++ enc c2 ++ … deliver c1, c2, … each as if
+   read alone, whatever each of the visitors skips or declines. *)
+Theorem C17_concat : forall T g (items : list item),
+  tables_ok T = true -> Forall (fun x => wf g T (i_cls x) (i_hdr x)) items ->
+  forall rest,
+    read_many g T (map i_vis items) (flat_map (fun x => enc (i_cls x)) items ++ rest)
+    = Ok (map (fun x => spec_class T (i_vis x) (i_hdr x) (i_cls x)) items, rest).
+Proof. exact concat. Qed.
+Print Assumptions C17_concat.
+
+(* the two theorems for the tables of the code as it is now *)
+Theorem C17_position_generated : forall g c h,
+  wf g tables c h ->
+  forall v rest, read_class g tables v (enc c ++ rest) = Ok (spec_class tables v h c, rest).
+Proof. exact (fun g c h => position_independent tables g c h generated_tables_ok). Qed.
+Print Assumptions C17_position_generated.
